@@ -21,6 +21,22 @@ def guard_names(cond):
     return frozenset(out), neg
 
 
+def _diverges(block):
+    """Does the block end by leaving the enclosing flow (continue / break / return)?"""
+    b = hirq.strip(block)
+    if not isinstance(b, dict):
+        return False
+    last = None
+    if b.get("k") == "block":
+        last = b.get("expr") or (b.get("stmts") or [None])[-1]
+    else:
+        last = b
+    if isinstance(last, dict) and last.get("k") in ("semi", "stmt", "expr_stmt") and "e" in last:
+        last = last["e"]
+    last = hirq.strip(last) if isinstance(last, dict) else None
+    return isinstance(last, dict) and last.get("k") in ("continue", "break", "ret", "return")
+
+
 class Seq:
     def __init__(self, fb, d):
         self.fb = fb
@@ -139,6 +155,16 @@ class Seq:
             lid = l.get("lid") if l.get("k") == "path" else (hirq.strip(l["e"]).get("lid") if l.get("k") == "un" else None)
             if lid == self.counter:
                 self.events.append({"kind": "inc", "label": hirq.lit_value(n["r"]), "guards": list(guards), "loops": list(loops), "ln": n.get("ln")})
+        if k == "block":
+            # a statement `if c { ...; continue / break / return }` guards everything after it in the block with !c
+            g2 = list(guards)
+            for st in list(n.get("stmts", [])) + ([n["expr"]] if n.get("expr") else []):
+                self._walk(st, g2, loops)
+                x = hirq.strip(st.get("e", st)) if isinstance(st, dict) else None
+                if isinstance(x, dict) and x.get("k") == "if" and not x.get("else") and _diverges(x["then"]):
+                    gn = guard_names(x["cond"])
+                    g2 = g2 + [(gn[0], not gn[1])]
+            return
         for c in hirq.children(n):
             self._walk(c, guards, loops)
 
